@@ -191,6 +191,8 @@ def instances(tier):
                     continue
                 add('ders', h_curve_ders, spr, timeout=1800, order=order)
         add('ders', h_curve_ders, spec('curve', (p,), ((1,),), rational=False, lo=2, hi=5), order=p + 1)
+        add('ders', h_curve_ders, spec('curve', (p,), ((1, 1),), rational=False, lo=-1, hi=1), order=p + 1)
+        add('ders', h_curve_ders, spec('curve', (p,), ((1,),), rational=True, lo=-2, hi=3), order=1)
         for m in [(1,), (p,), (1, 1, 1), (1, 2) if p >= 2 else (1, 1)]:
             add('ders', h_curve_ders, spec('curve', (p,), (m,), rational=False, dim=2), order=p + 1, span='find_span_binsearch')
         add('ders', h_curve_ders, spec('curve', (p,), ((1, 1),), rational=True, dim=2), order=1, span='find_span_binsearch')
@@ -222,6 +224,9 @@ def instances(tier):
     add('ders', h_surface_ders, spec('surface', (1, 1), ((), ()), rational=True), timeout=3000, order=3)
     if not quick:
         add('ders', h_surface_ders, spec('surface', (2, 1), ((), ()), rational=True), timeout=3000, order=3)
+    add('ders', h_surface_ders, spec('surface', (1, 2), ((1,), (1,)), rational=False, doms=[(-1, 1), (-2, 3)]), timeout=1800, order=2)
+    add('ders', h_surface_ders, spec('surface', (1, 2), ((1,), (1,)), rational=False, doms=[(-1, 1), (-2, 3)]), timeout=1800, order=2, evaluator='alt')
+    add('tangent_normal', h_tangent_normal, spec('surface', (1, 2), ((1,), ()), rational=False, doms=[(-1, 1), (-2, 3)]), timeout=1800, normalize=False)
     add('hodograph', h_hodograph_surface, spec('surface', (2, 2), ((1,), (1,)), rational=False), timeout=1800)
     add('hodograph', h_hodograph_surface, spec('surface', (3, 2), ((1,), ()), rational=False), timeout=1800)
     for normalize in (False, True):
